@@ -66,7 +66,7 @@ Proof.
   - pose proof (do_delete_same s2 fs1 ci (v_lastLogIdx s2)) as D1.
     destruct (do_delete s2 fs1 ci (v_lastLogIdx s2)) as [[s3 ok] fs3]. simpl in D1.
     destruct ok; simpl.
-    + apply store_new_same. destruct (ci <=? v_latestIdx s3); exact D1.
+    + destruct (conflict_pred a news) as [pi pt]. apply store_new_same. destruct (ci <=? v_latestIdx s3); exact D1.
     + exact D1.
 Qed.
 
